@@ -167,7 +167,7 @@ pub fn record(args: &[String]) {
                     Err(e) => (false, false, e.errors.to_string().lines().take(4).collect::<Vec<_>>().join(" | "), e.errors.iter().map(|d| d.error.to_string()).collect::<Vec<_>>(), facts(&e.partial)),
                 });
                 match v {
-                    Ok((parse_ok, valid, msg, errs, f)) => out.line(&json!({"what": "document", "crash": false, "exhausted": false, "sameAgain": same, "parseOk": parse_ok, "valid": valid,
+                    Ok((parse_ok, valid, msg, errs, f)) => out.line(&json!({"item": k, "what": "document", "crash": false, "exhausted": false, "sameAgain": same, "parseOk": parse_ok, "valid": valid,
                         "message": msg, "errors": errs, "facts": f, "len": bytes.len(), "limits": limits, "depth": brace_depth(&text), "text": text, "bytes": hex})),
                     Err(p) => out.line(&json!({"what": "document", "crash": true, "panic": p, "exhausted": false, "len": bytes.len(), "limits": limits, "text": text, "bytes": hex})),
                 }
@@ -211,7 +211,7 @@ pub fn record(args: &[String]) {
                     }
                 });
                 match v {
-                    Ok(Ok((valid, msg))) => out.line(&json!({"what": "operation", "schema": si, "crash": false, "exhausted": false, "sameAgain": same, "parseOk": true, "valid": valid, "message": msg,
+                    Ok(Ok((valid, msg))) => out.line(&json!({"item": k, "what": "operation", "schema": si, "crash": false, "exhausted": false, "sameAgain": same, "parseOk": true, "valid": valid, "message": msg,
                         "facts": {"types": [], "directives": [], "impl": {}, "fields": {}, "frags": {}, "ops": []}, "depth": brace_depth(&text), "text": text, "bytes": hex})),
                     Ok(Err(e)) => out.line(&json!({"tool_error": e})),
                     Err(p) => out.line(&json!({"what": "operation", "schema": si, "crash": true, "panic": p, "exhausted": false, "text": text, "bytes": hex})),
